@@ -301,6 +301,24 @@ static void app_pointers()
   }
 }
 
+// casts from function pointers: the result is a tainted DATA pointer and must satisfy the invariant like any other
+int c03_gfn(long);
+static int32_t guest_c03_gfn(int32_t) { return 0; }
+static void function_pointer_casts()
+{
+  auto check = [&](const char* what, const void* raw) {
+    n_trans++;
+    if (!inv(raw)) viol(std::string("C03 step=") + what + " kind=outside", std::string("fncast|") + what, std::string("a tainted data pointer obtained by casting a sandbox function address designates ") + where(raw));
+  };
+  try {
+    auto fa = g_sb->get_sandbox_function_address(c03_gfn);
+    check("reinterpret_cast<void*>(function-address)", rlbox::sandbox_reinterpret_cast<void*>(fa).UNSAFE_unverified());
+    check("reinterpret_cast<char*>(function-address)", rlbox::sandbox_reinterpret_cast<char*>(fa).UNSAFE_unverified());
+  } catch (const std::runtime_error&) {
+    n_abort++;
+  }
+}
+
 template<class... Ts>
 struct tl
 {};
@@ -365,6 +383,7 @@ int main(int argc, char** argv)
     if (f[0] == "pos") positions(strtoull(f[2].c_str(), nullptr, 10));
     else if (f[0] == "malloc") { malloc_answers<char>(); malloc_answers<long>(); malloc_answers<VS>(); }
     else if (f[0] == "apptr") app_pointers();
+    else if (f[0] == "fncast") function_pointer_casts();
     else if (f[0] == "deref") { std::vector<uint64_t> reps{ strtoull(f[1].c_str(), nullptr, 10) }; deref_state<int>(0x400, reps); }
     else if (f[0] == "step") {
       uint64_t off = f[2] == "null" ? ~0ull : strtoull(f[2].c_str(), nullptr, 10);
@@ -452,6 +471,7 @@ int main(int argc, char** argv)
     malloc_answers<long>();
     malloc_answers<VS>();
     app_pointers();
+    function_pointer_casts();
   }
   stat("states", n_states);
   stat("transitions", n_trans);
